@@ -9,6 +9,7 @@ bounded by what is pending — all stated at the structural facts regenerated fr
 The scenario harness (go/cmd/harness/c13.go) runs the real calls under a watchdog.
 -/
 import Dblib.Model.Life
+import Dblib.Props.C13.ConnClose
 
 namespace Dblib.Props.C13
 open Dblib.Life Dblib.Gen.Shape
